@@ -1,7 +1,9 @@
 package props
 
 import (
+	"encoding/base64"
 	"fmt"
+	"net/url"
 	"strings"
 	"time"
 
@@ -110,6 +112,13 @@ func c18Model(run *ev.Run, layout c18Layout) seqx.Model {
 					run.HarnessError("C18 world: " + s.err.Error())
 				}
 				return
+			}
+			if live {
+				defer func() {
+					if sig, msg := c18ForeignCredentials(s.sw, layout.Filters); sig != "" {
+						run.Violation(sig, msg, full)
+					}
+				}()
 			}
 			switch e.Kind {
 			case "login":
@@ -304,10 +313,45 @@ func (s *c18Sys) forwardedIssuer(res world.Result) string {
 	return ""
 }
 
+// c18ForeignCredentials: every token request (code exchange or refresh) that reached a filter's provider carries that
+// filter's client credentials and nobody else's - neither in the Authorization header nor in the form.
+func c18ForeignCredentials(sw *world.SWorld, filters []world.FilterSpec) (string, string) {
+	for _, f := range filters {
+		idp := sw.Realms[f.Realm]
+		if idp == nil {
+			continue
+		}
+		for k, tr := range idp.TokenReqs {
+			hay := tr.Form.Encode()
+			for name, vs := range tr.Header {
+				for _, v := range vs {
+					hay += "\n" + name + ": " + v
+					if rest, ok := strings.CutPrefix(v, "Basic "); ok {
+						if b, err := base64.StdEncoding.DecodeString(rest); err == nil {
+							hay += "\n" + string(b)
+						}
+					}
+				}
+			}
+			for _, g := range filters {
+				if g.Realm == f.Realm || g.Secret == f.Secret {
+					continue
+				}
+				if strings.Contains(hay, g.Secret) || strings.Contains(hay, url.QueryEscape(g.Secret)) {
+					return "C18 foreign-credentials-sent-to-provider grant=" + tr.Grant,
+						fmt.Sprintf("token request #%d (%s) to the provider of filter %s carries the client secret of filter %s", k, tr.Grant, f.Name, g.Name)
+				}
+			}
+		}
+	}
+	return "", ""
+}
+
 // real-time replay on the memory store (one-sided: slowness can only delay the deadline, never fail it)
 func c18RealTime(run *ev.Run) {
-	fa := world.FilterSpec{Name: "a", Realm: "idp-a.test", ClientID: "client-a", Secret: "sa", CookiePrefix: "pa", Abs: 3600, Idle: 3600}
-	fb := world.FilterSpec{Name: "b", Realm: "idp-b.test", ClientID: "client-b", Secret: "sb", CookiePrefix: "pb", Abs: 2, Idle: 2}
+	// (filter a's tokens live 2 s: its request after the pause is a refresh at a's provider, after b's code exchange)
+	fa := world.FilterSpec{Name: "a", Realm: "idp-a.test", ClientID: "client-a", Secret: "secret-of-a", CookiePrefix: "pa", Abs: 3600, Idle: 3600, TokenLife: 2}
+	fb := world.FilterSpec{Name: "b", Realm: "idp-b.test", ClientID: "client-b", Secret: "secret-of-b", CookiePrefix: "pb", Abs: 2, Idle: 2}
 	for _, order := range [][]world.FilterSpec{{fa, fb}, {fb, fa}} {
 		sw, err := world.NewSWorld(order, nil)
 		if err != nil {
@@ -327,6 +371,16 @@ func c18RealTime(run *ev.Run) {
 		first := order[0].Name
 		run.Class(fmt.Sprintf("realtime|first=%s|a-ok=%v|b-ok=%v", first, ra.OK, rb.OK))
 		rp := c18Replay{Layout: c18Layout{Name: "real-time memory first=" + first, Filters: order}}
+		if sig, msg := c18ForeignCredentials(sw, order); sig != "" {
+			run.Violation(sig, msg, rp)
+		}
+		nRefresh := 0
+		for _, tr := range sw.Realms[fa.Realm].TokenReqs {
+			if tr.Grant == "refresh_token" {
+				nRefresh++
+			}
+		}
+		run.Class(fmt.Sprintf("realtime|refreshes-at-a=%d", nRefresh))
 		if rb.OK {
 			run.Violation("C18 session-governed-by-other-filters-timeouts filter=b store=memory first="+first,
 				"filter b (absolute=idle=2 s) still honours its session 4 s after login: the shared memory store runs with another filter's time-outs", rp)
